@@ -22,6 +22,7 @@ const (
 	fnReplay             = "(*executor.WALFileType).Replay"
 	fnReplayTGData       = "(*executor.WALFileType).replayTGData"
 	fnReadTGData         = "(*executor.WALFileType).readTGData"
+	fnReadTxnInfo        = "(*executor.WALFileType).readTransactionInfo"
 	fnDelete             = "(*executor.WALFileType).Delete"
 	fnNeedsReplay        = "(*executor.WALFileType).NeedsReplay"
 	fnQueueWriteCommand  = "(*executor.WALFileType).QueueWriteCommand"
